@@ -127,6 +127,9 @@ type Host struct {
 	// Intercept runs after the request was read and numbered (Arr) but before it is
 	// applied. If it returns true the request was fully answered by the interceptor.
 	Intercept func(ev *Event, w http.ResponseWriter, r *http.Request) bool
+	// Early runs before the request body is read; a non-zero status is sent at once and the body
+	// is never read by the handler.
+	Early func(ev *Event) int
 	Auth      *AuthCfg
 	uploads   map[string]*upload
 	upSeq     int
@@ -360,6 +363,31 @@ func (h *Host) ServeHTTP(w http.ResponseWriter, r *http.Request) {
 		m := h.MaxInFlight.Load()
 		if n <= m || h.MaxInFlight.CompareAndSwap(m, n) {
 			break
+		}
+	}
+	if h.Early != nil {
+		pre := &Event{Host: h.Name, Method: r.Method, Path: r.URL.Path, Query: r.URL.RawQuery, BodyLen: -1,
+			ContentRange: r.Header.Get("Content-Range"), Auth: r.Header.Get("Authorization"), Header: r.Header.Clone(), RawURL: r.URL.String()}
+		h.classify(pre)
+		if code := h.Early(pre); code != 0 {
+			// answered before (and without) reading the request body, as a front end does that
+			// rejects on the headers alone (expired token, rate limit, overload)
+			h.W.mu.Lock()
+			h.W.arr++
+			pre.Arr = h.W.arr
+			h.W.seq++
+			pre.Seq = h.W.seq
+			pre.Status = code
+			pre.Fault = fmt.Sprintf("early:%d", code)
+			h.W.Events = append(h.W.Events, pre)
+			h.W.mu.Unlock()
+			eb := errBody("EARLY", "answered before the body was read")
+			w.Header().Set("Content-Type", "application/json")
+			w.Header().Set("Content-Length", strconv.Itoa(len(eb)))
+			leave()
+			w.WriteHeader(code)
+			_, _ = w.Write(eb)
+			return
 		}
 	}
 	body, rerr := io.ReadAll(r.Body)
